@@ -120,7 +120,7 @@ Qed.
    its SET tickets carry its op numbers in increasing order *)
 Theorem producer_tickets_increase s th :
   reachable S s ->
-  (forall t t2 k, tk s t = TSet (th, k) -> own_of (ppc s th) = Some t2 -> t < t2) /\
+  (forall t t2 k, tk s t = TSet (th, k) -> owns (ppc s th) t2 -> t < t2) /\
   (forall t1 t2 k1 k2, tk s t1 = TSet (th, k1) -> tk s t2 = TSet (th, k2) -> t1 < t2 -> k1 < k2).
 Proof.
   intros Hr. destruct (Inv_reachable cap cc n kk np Hcc Hn pp0 cp0 s Hr) as [I V]. split.
@@ -129,7 +129,7 @@ Proof.
 Qed.
 
 (* API results vs. the channel: values returned by try_recv (+ the one in hand) = received *)
-Theorem got_is_received s : reachable S s -> got s ++ hand_c s = received s.
+Theorem got_is_received s : reachable S s -> got s ++ chand s = received s.
 Proof. intros Hr. apply (V_got _ (proj2 (Inv_reachable cap cc n kk np Hcc Hn pp0 cp0 s Hr))). Qed.
 
 Lemma in_accepted s v : reachable S s -> (In v (accepted s) <-> exists t, tk s t = TSet v).
@@ -152,17 +152,26 @@ Proof.
   inversion E; subst. apply (in_accepted s _ Hr). exists t. exact Ht.
 Qed.
 
-(* nothing else is in the channel: an accepted payload belongs to a try_send that returned Ok or
-   to one whose SET store is done and whose call is about to return Ok *)
+(* nothing else is in the channel: an accepted payload belongs to a call that returned Ok for it, or
+   is one of the `done_of` items of the call in progress whose SET store is already done *)
 Theorem accepted_is_sent_or_in_flight s th k :
   reachable S s -> In (th, k) (accepted s) ->
-  In (th, k) (sent_ok s th) \/ (k = pseq s th + 1 /\ fly_of (ppc s th) <> None).
+  In (th, k) (sent_ok s th) \/ (pseq s th < k <= pseq s th + done_of (ppc s th)).
 Proof.
   intros Hr Hin. destruct (Inv_reachable cap cc n kk np Hcc Hn pp0 cp0 s Hr) as [I V].
   apply (in_accepted s _ Hr) in Hin. destruct Hin as [t Ht].
-  destruct (V_set _ V _ _ _ Ht) as [[_ X]|[X Y]].
-  - left. unfold sent_ok. apply in_flat_map. exists (POk (th, k)). split; [exact X | left; reflexivity].
-  - right. split; [exact X | congruence].
+  destruct (V_set _ V _ _ _ Ht) as [_ [Y Z]].
+  destruct (N.le_gt_cases k (pseq s th)) as [L|L].
+  - left. unfold sent_ok. apply in_flat_map. exists (POk (th, k)). split; [apply Z; exact L | left; reflexivity].
+  - right. lia.
+Qed.
+
+(* .. and conversely every item the call in progress has completed is in the channel *)
+Theorem in_flight_is_accepted s th i :
+  reachable S s -> i < done_of (ppc s th) -> In (th, pseq s th + 1 + i) (accepted s).
+Proof.
+  intros Hr Hi. destruct (Inv_reachable cap cc n kk np Hcc Hn pp0 cp0 s Hr) as [I V].
+  apply (in_accepted s _ Hr). apply (V_fly _ V _ _ Hi).
 Qed.
 
 (* a try_send that returned Full or Closed handed its value back and left no SET in the channel *)
